@@ -1309,7 +1309,7 @@ impl DB {
                 .notify_writer();
         }
 
-        Ok(())
+        write_result
     }
 
     /// Check if the provided writer is the first writer in the writer queue.
